@@ -7,5 +7,5 @@ Extraction "model.ml" extraction_prelude
   str_eqb split_cc type_display value_to_string all_entries
   build_tree retain cases leaves wf_forest
   run_action list_benches test_benches lines executed exec_paths painted runs_something
-  is_match args_evaluations expand spell_2015 flat_exec c12_flat_sb group_keys_distinct c17_label_sb c17_once_sb flat_list action_of_flags
+  is_match args_evaluations expand spell_2015 flat_exec c12_flat_sb group_keys_distinct c17_label_sb c17_once_sb flat_list action_of_flags unqualify c17_type_label_sb c17_types_distinct_sb chain_path module_chain find_module_group
   c14_terse_sb c14_quiet_sb c14_roundtrip_sb.
